@@ -78,7 +78,8 @@ impl Check for C18 {
             return fail(sig, msg);
         }
         // full validation after every add while cheap, then at a stride (plus the phase borders)
-        let stride = if c.n * c.k <= 400_000 { 1 } else { (c.n * c.k / 400_000).max(1) };
+        let work = c.n.saturating_mul(c.k.min(c.n.max(1))); // validation cost ~ n * min(n, k)
+        let stride = if work <= 400_000 { 1 } else { (work / 400_000).max(1) };
         let mut checked = 0u64;
         let mut i = 0usize;
         let mut turn = 0usize;
@@ -100,7 +101,8 @@ impl Check for C18 {
             }
             i += step - 1;
             let n = i + 1;
-            let border = n <= c.k + 2 || (n + 2 >= 4 * c.k && n <= 4 * c.k + 3);
+            let k4 = c.k.saturating_mul(4);
+            let border = n <= c.k.saturating_add(2) || (n + 2 >= k4 && n <= k4.saturating_add(3));
             if n % stride == 0 || border || n == c.n {
                 epoch += 1;
                 checked += 1;
@@ -113,7 +115,7 @@ impl Check for C18 {
             i += 1;
         }
         let extreme = c.rng.script.iter().any(|&w| w == 0 || w == u64::MAX);
-        let three_phases = c.n > 4 * c.k;
+        let three_phases = c.n > c.k.saturating_mul(4);
         let mut info = Info::new(three_phases || extreme, hash_json(c))
             .class_if(three_phases, "all_three_phases")
             .class_if(extreme, "extreme_rng_words")
@@ -147,15 +149,44 @@ fn strategy(tier: Tier) -> BoxedStrategy<Case> {
         .boxed()
 }
 
+/// reservoir sizes no stream can fill ("keep everything"): k near usize::MAX, where 4 * k does not fit a usize
+fn huge_k_strategy() -> BoxedStrategy<Case> {
+    (prop_oneof![Just(usize::MAX), Just(usize::MAX - 1), Just(1usize << 63), Just(1usize << 62), Just((1usize << 62) - 1), Just((1usize << 62) + 1), Just(usize::MAX / 4 + 1), Just(usize::MAX / 4), Just(1usize << 40)], rng_spec(), 0usize..300, prop_oneof![2 => Just(vec![]), 1 => prop::collection::vec(0u16..40, 1..4)])
+        .prop_map(|(k, rng, n, chunks)| Case { k, n, rng, prefill: 0, chunks })
+        .boxed()
+}
+
+/// Same oracle as `C18`, own sub-check name for the huge-k generator.
+pub struct HugeK;
+
+impl Check for HugeK {
+    type Case = Case;
+    fn name(&self) -> &'static str {
+        "huge_k"
+    }
+    fn eval(&self, c: &Case) -> Verdict {
+        match C18.eval(c) {
+            Verdict::Pass(i) => {
+                let nt = c.n >= 2;
+                let mut j = Info::new(nt, hash_json(c)).class_if(c.k.checked_mul(4).is_none(), "4k_exceeds_usize").class_if(!c.chunks.is_empty(), "fed_through_extend");
+                j.inner_evals = i.inner_evals;
+                Verdict::Pass(j)
+            }
+            f => f,
+        }
+    }
+}
+
 pub fn checks() -> Vec<Box<dyn DynCheck>> {
-    vec![Box::new(C18)]
+    vec![Box::new(C18), Box::new(HugeK)]
 }
 
 pub fn run(ctx: &Ctx) {
-    ctx.set_rule("generated: k in 1..=40 (2000 thorough), n from 0 across k, 4k, 4k+1 up to 50k and beyond, RNG = generated script of extreme words (0, u64::MAX, single bits, random) followed by a seeded PRNG tail; the stream is position ids 0..n; a third of the cases feed the stream alternately through add() and Extend::extend() with generated chunk sizes (incl. empty iterators); a quarter of the cases first feed up to 60k other items and clear() the sampler (a cleared sampler must be as valid as a fresh one). After every add (large cases: at a stride plus all phase borders): reservoir().len() == min(n,k), every item < n, no position twice, prefix order while n <= k, i() == n, is_empty iff n == 0, no panic. Non-trivial: n > 4k (all three phases) or a script containing 0 / u64::MAX words. Distinct = hash of the case; evaluations = cases + validations.");
-    ctx.run_regressions(&[&C18]);
+    ctx.set_rule("generated: k in 1..=40 (2000 thorough), n from 0 across k, 4k, 4k+1 up to 50k and beyond, RNG = generated script of extreme words (0, u64::MAX, single bits, random) followed by a seeded PRNG tail; the stream is position ids 0..n; a third of the cases feed the stream alternately through add() and Extend::extend() with generated chunk sizes (incl. empty iterators); a quarter of the cases first feed up to 60k other items and clear() the sampler (a cleared sampler must be as valid as a fresh one). huge_k: k in {2^40, usize::MAX/4, usize::MAX/4 + 1, 2^62 - 1, 2^62, 2^62 + 1, 2^63, usize::MAX - 1, usize::MAX} (reservoirs no stream fills; 4k mostly does not fit a usize) with n < 300, same oracle. After every add (large cases: at a stride plus all phase borders): reservoir().len() == min(n,k), every item < n, no position twice, prefix order while n <= k, i() == n, is_empty iff n == 0, no panic. Non-trivial: n > 4k (all three phases) or a script containing 0 / u64::MAX words. Distinct = hash of the case; evaluations = cases + validations.");
+    ctx.run_regressions(&[&C18, &HugeK]);
     let t = ctx.tier;
     ctx.run_random(&C18, t.pick(3_000_000, 2_000_000), move || strategy(t));
+    ctx.run_random(&HugeK, t.pick(20_000, 200_000), huge_k_strategy);
     ctx.require_class("validity", "all_three_phases", 0.2);
     ctx.require_class("validity", "extreme_rng_words", 0.3);
 }
